@@ -12,6 +12,7 @@ next observation and in the reward.
 
 from __future__ import annotations
 
+from collections import OrderedDict
 from typing import Any, ClassVar
 
 import equinox as eqx
@@ -111,10 +112,9 @@ class SimMDP(AbstractEnv):
             self.observation_space = Box(-OBS_BOUND, OBS_BOUND, shape=(D,))
         elif obs_kind == "dict":
             self.observation_space = Dict(
-                {
-                    "id": Box(-OBS_BOUND, OBS_BOUND, shape=(1,)),
-                    "feat": Box(-OBS_BOUND, OBS_BOUND, shape=(D - 1,)),
-                }
+                OrderedDict(
+                    [("id", Box(-OBS_BOUND, OBS_BOUND, shape=(1,))), ("feat", Box(-OBS_BOUND, OBS_BOUND, shape=(D - 1,)))]
+                )
             )
         elif obs_kind == "tuple":
             self.observation_space = Tuple(
@@ -201,7 +201,7 @@ class SimMDP(AbstractEnv):
         if self.obs_kind == "box":
             return v
         if self.obs_kind == "dict":
-            return {"id": v[:1], "feat": v[1:]}
+            return OrderedDict([("id", v[:1]), ("feat", v[1:])])
         if self.obs_kind == "tuple":
             return (v[:1], v[1:])
         return state.s
